@@ -113,11 +113,11 @@ def collectFuncs (p : Pkg) : List Function :=
   let funcs := p.files.flatMap (·.funcs)
   let types := sortBy (·.name) ((p.files.flatMap (·.types)).filter isNamespaceDecl)
   let methods := types.flatMap fun t =>
-    (sortBy (·.name) (funcs.filter fun d => (d.recv.map (·.base)) == some t.name && exported d.name)).filterMap fun d =>
+    (sortBy (·.name) (funcs.filter fun d => (d.recv.map (·.base)) == some t.name && exported d.name && !d.typeParams)).filterMap fun d =>
       match funcType d.params d.results with
       | .ok s => some (mkFunction d s)
       | .error _ => none
-  let plain := (sortBy (·.name) (funcs.filter fun d => d.recv.isNone && exported d.name)).filterMap fun d =>
+  let plain := (sortBy (·.name) (funcs.filter fun d => d.recv.isNone && exported d.name && !d.typeParams)).filterMap fun d =>
       match funcType d.params d.results with
       | .ok s => some (mkFunction d s)
       | .error _ => none
